@@ -272,8 +272,8 @@ func HarnessFault() {
 		if !m.empty() {
 			next = m.last() + 1
 		}
-		switch vrt.Choice("op", vrt.Param("ops", 3)) {
-		case 0, 1:
+		switch vrt.Choice("op", vrt.Param("ops", 2)) {
+		case 0:
 			n := 1 + vrt.Choice("batch", 2)
 			var logs []*raft.Log
 			var ents []ent
@@ -309,7 +309,7 @@ func HarnessFault() {
 				failed = append(failed, failedAppend{next, ents})
 				vrt.Reach("append-failed")
 			}
-		case 2:
+		case 1:
 			min, max := vrt.U64("min"), vrt.U64("max")
 			pm := cloneModel(m)
 			okModel := pm.deleteRange(min, max)
